@@ -392,6 +392,18 @@ class Evaluator:
         return v
 
     def e_Lambda(self, e, st, fr):
+        a = e.args
+        if not (a.vararg or a.kwarg or a.kwonlyargs or a.defaults):
+            # the body as a term over its own parameters (for evaluation on concrete values); effects of the body belong to calls
+            names = [x.arg for x in a.args]
+            sub = State(dict(st.env), dict(st.heap), [], list(st.conds))
+            for n_ in names:
+                sub.env[n_] = Sym("lamparam:" + n_)
+            try:
+                body = self.eval_expr(e.body, sub, fr)
+                return App("lambda", (Const(ast.unparse(e)), Const(tuple(names)), body), e)
+            except AnalysisError:
+                pass
         return App("lambda", (Const(ast.unparse(e)),), e)
 
     def e_Starred(self, e, st, fr):
